@@ -135,18 +135,21 @@ CHECKS = {
         "level_text": ("Bounded model checking of the reference bookkeeping that makes a WAL file deletable: after every step of every "
                        "script (appends under the current or the next file, truncations; one or two queues sharing three files) "
                        "FileNumber::can_be_deleted() holds exactly for the files in which no retained record of any queue lives, and "
-                       "first_file_number() is the file of the oldest retained record. The GC pass, take_first_unused and the directory "
-                       "listing are glue over std::fs/BTreeSet and not claimed."),
+                       "first_file_number() is the file of the oldest retained record; FileTracker (real BTreeSet) hands out for deletion exactly "
+                       "the unreferenced oldest files, oldest first, never the last one. When the GC pass runs and what it unlinks is "
+                       "MultiRecordLog / std::fs glue and not claimed."),
         "level_note": "trusted: kani-compiler (atomics of Arc treated sequentially), CBMC, CaDiCaL, the ghost map in harness/mem.rs; hook FileNumber::for_verif",
         "filters": ["c06_"],
-        "quick": {"harnesses": [("real", "c06_files*_q*")], "jobs": 14, "timeout": 900},
-        "thorough": {"harnesses": [("real", "c06_files*")], "jobs": 16, "timeout": 2400},
+        "quick": {"harnesses": [("real", "c06_files*_q*"), ("real", "c06_tracker_q*")], "jobs": 14, "timeout": 900},
+        "thorough": {"harnesses": [("real", "c06_files*"), ("real", "c06_tracker_q*")], "jobs": 16, "timeout": 2400},
         "rule": ("case = one script over [append same file, append after roll-over, truncate first / middle / last] (x2 queues in the "
                  "files2 family); after each step every file handle is compared with the ghost 'some retained record lives in it'"),
-        "samples": ["c06_files_q_004: scripts 28..34 of 5^3, three file handles, one queue", "c06_files2_q_003: scripts 21..27 of 8^2, two queues"],
-        "functions": ["mem::queue::MemQueue::{append_record,truncate_head,first_file_number}", "rolling::file_number::FileNumber::{clone,can_be_deleted,file_number,eq}", "Arc<u64>"],
+        "samples": ["c06_files_q_004: scripts 28..34 of 5^3, three file handles, one queue", "c06_files2_q_003: scripts 21..27 of 8^2, two queues",
+                    "c06_tracker_q_h2: FileTracker over files 0,1,2 with a queue still referencing file 1: the GC pass hands out exactly file 0"],
+        "functions": ["mem::queue::MemQueue::{append_record,truncate_head,first_file_number}", "rolling::file_number::FileNumber::{clone,can_be_deleted,file_number,eq}", "Arc<u64>",
+                      "rolling::file_number::FileTracker::{from_file_numbers,first,next,inc,take_first_unused,count} (real std BTreeSet)"],
         "bounds": {"quick": {"script_length": "3 (one queue), 2 (two queues)", "files": 3}, "thorough": {"script_length": "4 (one queue), 3 (two queues)"}},
-        "outside": ["FileTracker::take_first_unused (BTreeSet)", "MultiRecordLog::run_gc_if_necessary, Directory::gc, disk_used_bytes, directory listing"],
+        "outside": ["MultiRecordLog::run_gc_if_necessary (when the pass runs, the current-file guard), Directory::gc (unlink), disk_used_bytes, directory listing"],
         "assumptions": ["no stub", "file handles are created with the guarded hook FileNumber::for_verif instead of FileTracker"],
     },
     "C16": {
@@ -173,16 +176,16 @@ CHECKS = {
         "level_text": ("Bounded model checking of the one function that decides what counts as a WAL file: for every 24-byte ASCII name "
                        "filename_to_position returns Some(n) exactly when the name is 'wal-' + 20 decimal digits with value n <= u64::MAX; "
                        "every ASCII name of any other length 0..30 and every 24-byte name containing one 2-byte (thorough: 3-byte) UTF-8 "
-                       "character is rejected. The directory scan, the regular-file filter and file creation/removal are std::fs and not claimed."),
+                       "character is rejected; the tracked files are walked in numeric order across gaps (FileTracker, concrete numbers). The directory scan, the regular-file filter and file creation/removal are std::fs and not claimed."),
         "level_note": "trusted: kani-compiler, CBMC, CaDiCaL, the 20-line reference parser in harness/fname.rs; guarded forwarder to the private function (hook H4)",
         "filters": ["c17_"],
         "quick": {"harnesses": [("real", "c17_*_q*")], "jobs": 8, "timeout": 900},
         "thorough": {"harnesses": [("real", "c17_*")], "jobs": 12, "timeout": 2400, "solvers": ["cadical", "kissat"]},
         "rule": ("case = one symbolic name family: (a) all 24 bytes symbolic ASCII, (b) one per length 0..30 except 24, (c) one per "
                  "position of a 2-byte / 3-byte UTF-8 character; the verdict for all byte values is the solver's; counted from the symex log"),
-        "samples": ["c17_ascii24_q: b[0..24] symbolic < 0x80, got == ref_parse(b)", "c17_non_ascii_q1: 2-byte character at byte 8..15, rest symbolic ASCII",
+        "samples": ["c17_tracker_q_gap: FileTracker over {0,1,3}: first/next walk 0,1,3 in order across the gap", "c17_ascii24_q: b[0..24] symbolic < 0x80, got == ref_parse(b)", "c17_non_ascii_q1: 2-byte character at byte 8..15, rest symbolic ASCII",
                     "c17_other_len_q: lengths 0..30 except 24"],
-        "functions": ["rolling::directory::filename_to_position", "core::str::{starts_with, parse::<u64>}", "u8::is_ascii_digit"],
+        "functions": ["rolling::directory::filename_to_position", "core::str::{starts_with, parse::<u64>}", "u8::is_ascii_digit", "rolling::file_number::FileTracker::{from_file_numbers,first,next} (ordering with gaps)"],
         "bounds": {"quick": {"name_length": "0..30", "non_ascii": "one 2-byte character"}, "thorough": {"non_ascii": "one 2-byte or one 3-byte character", "solvers": "cadical + kissat"}},
         "outside": ["Directory::open scan / is_file filter / to_str", "FileNumber::filename (format!) and the round trip through it", "create_file / remove_file only touch such names (std::fs)", "names with 4-byte or several multi-byte characters"],
         "assumptions": ["no stub", "names are built with from_utf8_unchecked from bytes constrained to valid UTF-8 of the stated shape"],
